@@ -12,6 +12,7 @@ oracle/search:  specificity computed by construction in Python (independent of t
 """
 import itertools
 import json
+import os
 import time
 
 from harness.lib import VERIF
@@ -157,7 +158,7 @@ SVALS = [" ", "\n", "  ", "\t", " \n "]
 CVALS = ["/**/", "/*c*/", "/* x */", "/*:*/", "/***/"]
 STRS = ['"x"', "'y'", '"a b"', '"\\""', '""', "' '", '"+"']
 HASHES = ["#a", "#1a", "#-x", "#A_b", "#\xe9"]
-DIMS = ["2n", "-n", "3px", "10n"]
+DIMS = ["2n", "-3n", "3px", "10n"]
 NUMS = ["1", "+1", "-2", "0", "2.5"]
 NSMAP = [("p", "u:p"), ("q", "u:q"), ("", "u:default")]
 LEGACY = (":first-line", ":first-letter", ":before", ":after")
@@ -465,6 +466,7 @@ def run(ctx):
             texts.append((ns, "".join(v for _, v in mtoks)))
             parsed.append((decl, [b, c, d], mtoks, parse_result(res)))
         fulls = ctx.pool_map(impl_full, texts, procs=PROCS, chunksize=128)
+        found = []
         for (ns, w, tr), (_, text), p, full in zip(asts, texts, parsed, fulls):
             if p is None:
                 continue
@@ -488,8 +490,7 @@ def run(ctx):
                 mism.append(("ast", text, "model result %s contradicts specificity_correct (%s)" % (mres[1], coq_tr)))
             v = oracle_full(ns, text, tr, full)
             if v:
-                ctx.violation(v, {"kind": "selector", "text": text, "ns": ns, "expected": [0] + list(tr)},
-                              sig_text=json.dumps(text))
+                found.append((len(text), v, {"kind": "selector", "text": text, "ns": ns, "expected": [0] + list(tr)}))
             else:
                 stats["accepted_by_impl"] += 1
                 nontrivial.add(text)
@@ -499,6 +500,9 @@ def run(ctx):
             stats["with_comment"] += "/*" in text
             if len(samples) < 5 and len(text) > 12:
                 samples.append({"text": text, "ns": ns, "specificity": [0] + list(tr)})
+
+        for _, v, wit in sorted(found, key=lambda x: x[0]):     # shortest failing selectors first
+            ctx.violation(v, wit, sig_text=json.dumps(wit["text"]))
 
         # ---- (b) token soup / mutated renderings / random texts; (c) all short token sequences
         soup = [(c[0], [tuple(t) for t in c[1]]) for c in corpus.get("tokens", [])]
@@ -550,6 +554,8 @@ def run(ctx):
             ctx.violation("@page specificity %s (re-parse %s), definition gives %s" % (r[1], r[3], exp),
                           {"kind": "page", "text": text, "expected": exp}, sig_text=json.dumps(text))
 
+    if mism and os.environ.get("C16_DUMP"):
+        open(os.environ["C16_DUMP"], "w").write(json.dumps(mism, indent=0, default=str))
     if mism:
         ctx.broken("correspondence", "Selector._setSelectorText vs CssV.Selector.select",
                    "%d cases differ; first: %s" % (len(mism), json.dumps(mism[:3], default=str)[:2500]))
